@@ -22,6 +22,8 @@ enum Exp {
     MsgKnownBroken(DistMsg, &'static str),
     FragPart,
     FragLast(DistMsg),
+    /// last-arriving fragment of a message laid out for the pinned reassembly order (see `asis_fragments`)
+    FragAsIsLast(DistMsg),
 }
 
 #[derive(Clone, Debug)]
@@ -107,6 +109,30 @@ fn alphabet(dist: bool) -> Vec<Item> {
             let n = frs.len();
             let frames = frs.into_iter().enumerate().map(|(i, f)| (frame(&f, 4), if i + 1 == n { Exp::FragLast(dm.clone()) } else { Exp::FragPart })).collect();
             v.push(Item { name, frames });
+        }
+        // arrival orders: the three fragments of one message in all six orders, once cut the way the protocol prescribes
+        // and once laid out for the reassembly order this library uses (ascending fragment id, recorded finding C09):
+        // whichever of the two the library delivers in wire order, it must deliver in every other order too
+        {
+            let perms: [(&'static str, &'static str, [usize; 3]); 6] = [("kfragperm_protocol_321", "kfragperm_asis_321", [0, 1, 2]), ("kfragperm_protocol_312", "kfragperm_asis_312", [0, 2, 1]), ("kfragperm_protocol_231", "kfragperm_asis_231", [1, 0, 2]),
+                ("kfragperm_protocol_213", "kfragperm_asis_213", [1, 2, 0]), ("kfragperm_protocol_132", "kfragperm_asis_132", [2, 0, 1]), ("kfragperm_protocol_123", "kfragperm_asis_123", [2, 1, 0])];
+            let proto = fragment(body, 21, &[body.len() / 3, 2 * body.len() / 3]);
+            // as-is layout: no cache references, plain atoms; chunk k of the message travels in fragment id k
+            let m_plain = DistMsg { control: RefVal::Tuple(vec![RefVal::int(2), RefVal::atom(""), my_pid(1)]), payload: Some(RefVal::Tuple(vec![RefVal::atom("fragmented"), RefVal::binary(&[7u8; 30])])) };
+            let mut whole_plain = vec![131u8, 68, 0];
+            vcore::refcodec::w_term(&mut whole_plain, &m_plain.control);
+            vcore::refcodec::w_term(&mut whole_plain, m_plain.payload.as_ref().unwrap());
+            let (a, b) = (whole_plain.len() / 3, 2 * whole_plain.len() / 3);
+            let chunks = [&whole_plain[..a], &whole_plain[a..b], &whole_plain[b..]];
+            let mut asis: Vec<Vec<u8>> = vec![];
+            { let mut h = vec![131u8, 69]; h.extend_from_slice(&22u64.to_be_bytes()); h.extend_from_slice(&3u64.to_be_bytes()); h.push(0); h.extend_from_slice(chunks[2]); asis.push(h); }
+            for id in [2u64, 1] { let mut c = vec![131u8, 70]; c.extend_from_slice(&22u64.to_be_bytes()); c.extend_from_slice(&id.to_be_bytes()); c.extend_from_slice(chunks[id as usize - 1]); asis.push(c); }
+            for (pname, aname, order) in perms {
+                let pf: Vec<(Vec<u8>, Exp)> = order.iter().enumerate().map(|(k, &i)| (frame(&proto[i], 4), if k == 2 { Exp::FragLast(dm.clone()) } else { Exp::FragPart })).collect();
+                v.push(Item { name: pname, frames: pf });
+                let af: Vec<(Vec<u8>, Exp)> = order.iter().enumerate().map(|(k, &i)| (frame(&asis[i], 4), if k == 2 { Exp::FragAsIsLast(m_plain.clone()) } else { Exp::FragPart })).collect();
+                v.push(Item { name: aname, frames: af });
+            }
         }
         // malformed fragment frames
         let mut short_hdr = vec![131u8, 69]; short_hdr.extend_from_slice(&5u64.to_be_bytes()); short_hdr.extend_from_slice(&2u64.to_be_bytes()); short_hdr.push(200);
@@ -206,6 +232,13 @@ fn execute(case: &Case, alpha: &[Item], ctx: &WorkerCtx) -> ExecResult {
                         None => { problem = Some("no result for a message".into()); break; }
                     }
                 }
+                Exp::FragAsIsLast(m) => {
+                    match got.get(gi) {
+                        Some(Ok((c, p))) if exact_eq(c, &m.control) && match (p, &m.payload) { (Some(a), Some(b)) => exact_eq(a, b), (None, None) => true, _ => false } => gi += 1,
+                        Some(_) => { known.push("ASIS-LAYOUT-NOT-DELIVERED"); gi += 1; }
+                        None => { known.push("ASIS-LAYOUT-NOT-DELIVERED"); }
+                    }
+                }
                 Exp::FragLast(m) => {
                     match got.get(gi) {
                         Some(Ok((c, p))) if exact_eq(c, &m.control) && match (p, &m.payload) { (Some(a), Some(b)) => exact_eq(a, b), (None, None) => true, _ => false } => gi += 1,
@@ -281,11 +314,17 @@ fn junk_flood_exec(case: &(usize, bool), ctx: &WorkerCtx) -> ExecResult {
     })
 }
 
-pub fn run(rep: &Report) -> Value {
+pub fn run(rep: &Report) -> Value { run_filtered(rep, None) }
+
+/// C09 at the connection: only the fragment arrival-order cases (receive_message; the read-half entry point is pass-through only).
+pub fn run_c09(rep: &Report) -> Value { run_filtered(rep, Some("kfragperm_")) }
+
+fn run_filtered(rep: &Report, only: Option<&str>) -> Value {
     let thorough = rep.thorough();
     let mut total = Stats { executions: 0, transitions: 0, distinct_outcomes: 0, max_points: 0, bound_completed: 0, exhaustive: true, unstable: 0, diverged: 0, samples: vec![], outcomes: Default::default() };
     let mut parts = vec![];
-    for (dist, read_half) in [(false, false), (true, false), (false, true)] {
+    let configs: Vec<(bool, bool)> = if only.is_some() { vec![(true, false)] } else { vec![(false, false), (true, false), (false, true)] };
+    for (dist, read_half) in configs {
         let alpha = alphabet(dist);
         let n = alpha.len();
         let maxlen = if thorough { 3 } else { 2 };
@@ -303,9 +342,10 @@ pub fn run(rep: &Report) -> Value {
             let red: Vec<usize> = (0..n).filter(|&i| matches!(alpha[i].name, "send" | "exit" | "tick" | "junk_bytes" | "hdr_identity_slots" | "fragmented_x2" | "frag_header_count_beyond_frame" | "unknown_kind_99")).collect();
             for &a in &red { for &b in &red { for &c in &red { seqs.push(vec![a, b, c]); } } }
         }
+        if let Some(f) = only { seqs.retain(|s| s.len() == 1 && alpha[s[0]].name.starts_with(f)); }
         for s in &seqs {
             cases.push(Case { items: s.clone(), seg: 0, dist, read_half });
-            if s.len() <= 2 && !s.is_empty() {
+            if only.is_none() && s.len() <= 2 && !s.is_empty() {
                 cases.push(Case { items: s.clone(), seg: 1, dist, read_half });
                 if s.len() == 1 || thorough {
                     let first_len = alpha[s[0]].frames[0].0.len();
@@ -314,17 +354,44 @@ pub fn run(rep: &Report) -> Value {
             }
         }
         let name = format!("{} / {}", if dist { "distribution-header+fragments negotiated" } else { "pass-through" }, if read_half { "receive_message_from_read_half" } else { "receive_message" });
+        let perm_results: Mutex<std::collections::BTreeMap<String, bool>> = Mutex::new(Default::default());
         let st = for_all(rep, &name, &cases, |c, ctx| {
             let mut r = execute(c, &alpha, ctx);
-            let ks: Vec<String> = r.violations.iter().filter(|v| v.0.starts_with("KNOWN:")).map(|v| v.0[6..].to_string()).collect();
+            let mut ks: Vec<String> = r.violations.iter().filter(|v| v.0.starts_with("KNOWN:")).map(|v| v.0[6..].to_string()).collect();
             r.violations.retain(|v| !v.0.starts_with("KNOWN:"));
+            // arrival-order items are judged together after the sweep (which layout does this library deliver at all?)
+            if c.items.len() == 1 && alpha[c.items[0]].name.starts_with("kfragperm_") && c.seg == 0 {
+                let delivered = ks.is_empty() && r.violations.is_empty();
+                perm_results.lock().unwrap().insert(alpha[c.items[0]].name.to_string(), delivered);
+                ks.clear();
+            }
+            ks.retain(|k| k != "ASIS-LAYOUT-NOT-DELIVERED");
             for k in ks { if !rep.known(&k) { r.violations.push((format!("conforming message not delivered ({})", k), json!({"frames": c.items.iter().map(|&i| alpha[i].name).collect::<Vec<_>>()}))); } }
             r
         });
+        {
+            let pr = perm_results.lock().unwrap().clone();
+            if !pr.is_empty() { rep.set_extra(&format!("fragment_arrival_orders_delivered ({})", name), json!(pr)); }
+            for layout in ["protocol", "asis"] {
+                let wire = pr.get(&format!("kfragperm_{}_321", layout)).copied();
+                let others: Vec<(&String, &bool)> = pr.iter().filter(|(k, _)| k.starts_with(&format!("kfragperm_{}_", layout))).collect();
+                match wire {
+                    Some(true) => {
+                        for (k, ok) in others { if !*ok { rep.violation("a fragmented message that is delivered when its fragments arrive in wire order is lost in another arrival order", json!({"layout": layout, "case": k, "configuration": name})); } }
+                    }
+                    Some(false) if layout == "protocol" => {
+                        // the protocol's layout is not delivered even in wire order: the recorded finding, once per order
+                        let finding = if only.is_some() { "C09-ascending-id-order" } else { "C06-fragmented-message-not-reassembled" };
+                        for _ in others { if !rep.known(finding) { rep.violation(&format!("conforming message not delivered ({})", finding), json!({"configuration": name})); } }
+                    }
+                    _ => {}
+                }
+            }
+        }
         total.executions += st.executions; total.transitions += st.transitions; total.distinct_outcomes += st.distinct_outcomes; total.unstable += st.unstable;
         parts.push(json!({"configuration": name, "cases": cases.len(), "alphabet": alpha.iter().map(|a| a.name).collect::<Vec<_>>(), "distinct_outcomes": st.distinct_outcomes}));
     }
-    let floods: Vec<(usize, bool)> = (0..6usize).flat_map(|k| [(k, false), (k, true)]).collect();
+    let floods: Vec<(usize, bool)> = if only.is_some() { vec![] } else { (0..6usize).flat_map(|k| [(k, false), (k, true)]).collect() };
     let st_f = for_all(rep, "300 rejected frames, then a valid deep message", &floods, |c, ctx| junk_flood_exec(c, ctx));
     total.executions += st_f.executions; total.transitions += st_f.transitions;
     json!({
